@@ -123,6 +123,11 @@ func sweepCmd(args []string) {
 	t1 := time.Now()
 	res := verifyAll(w, spec, fns, solveOpts{quickMs: *ms, retryMs: *ms, portfolio: *portfolio, dumpDir: *dump}, 16, nil)
 	fmt.Printf("verified %d functions in %v\n", len(fns), time.Since(t1))
+	if *only == "" || *family == "NONDET" {
+		for _, x := range extraObligations(w, spec, "", solveOpts{quickMs: *ms, retryMs: *ms}) {
+			res = append(res, &funcResult{fn: x.enc.top, enc: &Enc{obs: x.obs, top: x.enc.top}})
+		}
+	}
 	type key struct{ fam, v string }
 	cnt := map[key]int{}
 	tot, triv := 0, 0
